@@ -195,12 +195,10 @@ def numeralB (v : String) : Bool := !v.toList.isEmpty && v.toList.all fun c => i
 /-- an index expression whose text is complete in front of `]`: a column, a numeral, or anything printed in brackets -/
 def idxInnerOK (i : Expr) : Bool :=
   decide (PR.lvl i > 8) || (match i with | .column _ _ => true | .literal v => numeralB v | _ => false)
-/-- the single element of a grouping set: anything but an arithmetic expression printed without brackets (whose text begins with the
-text of its left operand) -/
+/-- the single element of a grouping set: a column, a bracketed list / sub-query, or anything printed in brackets (the printer decides by the
+first CHARACTER of the element's text whether it adds brackets, the token-level printer by the first TOKEN) -/
 def setElemOK (e : Expr) : Bool :=
-  match e with
-  | .compute _ _ _ => decide (PR.lvl e > 8)
-  | _ => true
+  decide (PR.lvl e > 8) || (match e with | .column _ _ => true | .subValue _ => true | .subQuery _ => true | _ => false)
 def setG (g : List Expr) : List Leaf2 :=
   match g with
   | [e] => [.guard fun _ => setElemOK e]
